@@ -26,7 +26,7 @@ func TestVisitReachesWhereOperands(t *testing.T) {
 	if !ReferencesVariable(ms[1].Match.Where) {
 		t.Error("variables in WHERE not found")
 	}
-	if !SumAggregate(s) || !OptionalMatchWhereLabels(s) {
+	if !SumAggregate(s) || !LabelsPredicateBeforeBoundary(s) {
 		t.Error("predicates do not match")
 	}
 }
